@@ -704,8 +704,9 @@ def c17_session(args):
                     if k in (b"\r", b"\x1b"):
                         search = False
                         if k == b"\x1b":
+                            drain(0.1)
                             press(k)
-                            drain(0.15)  # a lone Esc is told from an escape sequence by a short silence
+                            drain(0.5)  # a lone Esc is told from an escape sequence by a silence after it
                             continue
                 else:
                     k = rng.choice(keys_plain + [b"/"])
